@@ -13,6 +13,7 @@ import (
 	"runtime"
 	"strings"
 	"sync"
+	"time"
 
 	"verifkit/harness"
 	"verifkit/vk"
@@ -47,7 +48,17 @@ func child() {
 	for _, j := range jobs {
 		for i := 0; i < j.Iters; i++ {
 			h := &vsched.H{Params: j.Params}
-			harness.CacheConcurrent(h)
+			// a run takes microseconds; one that has not returned after two minutes is stuck for good
+			// (free-running goroutines cannot be killed: report and end this child)
+			done := make(chan struct{})
+			go func() { harness.CacheConcurrent(h); close(done) }()
+			select {
+			case <-done:
+			case <-time.After(2 * time.Minute):
+				fmt.Printf("FAIL\t%s\t%s\n", "C15/an operation on the shared cache never returned", fmt.Sprintf("free-running run with params %v did not finish within 2 minutes (deadlock)", j.Params))
+				fmt.Printf("RUNS\t%d\n", n)
+				os.Exit(0)
+			}
 			n++
 			for _, f := range h.Fails {
 				fmt.Printf("FAIL\t%s\t%s\n", f.Signature, f.Detail)
